@@ -50,6 +50,10 @@ def make_registry(kind):
         r.add("ang", 0.25, udims.angle)
     elif kind == "cgs-system":
         r.add("code_mass", 5.0, udims.mass)
+    elif kind == "removed":
+        # built-in symbols taken out of the registry: they are absent, and stay absent
+        r.remove("pc")
+        r.remove("mile")
     elif kind == "dumped-then-modified":
         # the registry has been serialised (JSON, pickle) once BEFORE its last edit; nothing is added or removed afterwards
         r.add("code_length", 3.0, udims.length)
@@ -69,8 +73,10 @@ CUSTOM_UNITS = {
     "offset": ["degX", "mdegX", "ang", "degC"],
     "cgs-system": ["m", "J", "code_mass"],
     "dumped-then-modified": ["code_length", "code_length/code_time"],
+    "removed": ["ly"],
 }
 ALT_UNIT = {  # a second unit of the same dimension, to convert to after the hop
+    "ly": "pc",
     "degree": "arcmin", "rad": "degree", "arcsec": "degree", "lat": "degree", "K": "R", "degC": "K", "degF": "degC", "delta_degC": "K",
     "mK": "degC", "mdegC": "K", "dB": "Np", "Np": "dB", "m": "cm", "km": "mile", "g*cm/s**2": "N", "sqrt(m)": "sqrt(cm)", "percent": "dimensionless",
     "dimensionless": "percent", "statC": "C", "T": "G", "G": "T", "Msun": "kg", "1/s": "Hz", "kg*m**2/s**2": "erg", "degree/s": "rad/s", "K/m": "R/ft",
@@ -349,7 +355,10 @@ def one_case(ctx, kind, regkind, unit, hops):
             if udig(ux)[1:] != udig(uy)[1:] or not (ux == uy):
                 ctx.violation(base + "|mode=unit-differs", case, udig(ux), udig(uy))
             if user_rows(reg_of(x)) != user_rows(reg_of(y)) and "savetxt-loadtxt" not in hops:
-                ctx.violation(base + "|mode=registry-content-differs", case, str(user_rows(reg_of(x)))[:300], str(user_rows(reg_of(y)))[:300])
+                key = base + "|mode=registry-content-differs"
+                if regkind == "removed" and not any(n in reg_of(y).lut for n in ()) and "pc" in reg_of(y).lut and "pc" not in reg_of(x).lut:
+                    key = f"C11|registry=removed|hop={hopname}|cause=removed-built-in-symbol-restored-by-the-reload"
+                ctx.violation(key, case, str(user_rows(reg_of(x)))[:300], str(user_rows(reg_of(y)))[:300])
         first, second = (x, y) if order == "original-first" else (y, x)
         res = {}
         for fname, f in follow.items():
@@ -369,7 +378,11 @@ def one_case(ctx, kind, regkind, unit, hops):
             which = "original-first" if o1 != r1 else "restored-first"
             a, b = (o1, r1) if o1 != r1 else (o2, r2)
             mode = "refusal-differs" if a[0] != b[0] else ("unit-differs" if a[0] == "ok" and isinstance(a[1], tuple) and isinstance(b[1], tuple) and a[1][:-1] == b[1][:-1] else "outcome-differs")
-            ctx.violation(base + f"|followup={fname}|mode=restored-{mode}", dict(case, followup=fname, order=which), _short(a), _short(b))
+            key = base + f"|followup={fname}|mode=restored-{mode}"
+            if regkind == "removed" and mode == "refusal-differs" and a[0] == "raise" and b[0] == "ok":
+                # keyed by cause: the reload hands back a registry in which the removed built-in symbols exist again
+                key = f"C11|registry=removed|hop={hopname}|cause=removed-built-in-symbol-restored-by-the-reload"
+            ctx.violation(key, dict(case, followup=fname, order=which), _short(a), _short(b))
         elif o1 != o2:
             ctx.violation(base + f"|followup={fname}|mode=outcome-depends-on-which-ran-first", dict(case, followup=fname), _short(o1), _short(o2))
 
